@@ -226,6 +226,66 @@ fn forks(tier: Tier, shard: usize, n: usize) -> Report {
 	rep
 }
 
+/// Compaction clause: on a 90-block chain whose pre-horizon outputs were spent in the patterns that
+/// matter to the pruner (siblings, the head block itself spending an old output), every order of
+/// {compact, reopen, the next main block, a three-block fork from inside the horizon that reorgs the
+/// head out} - the unspent set must stay the reference replay of the winning chain and full
+/// validation must pass.
+fn compaction(tier: Tier, shard: usize, n: usize) -> Report {
+	uni::init_thread();
+	let mut rep = Report::new();
+	let sc = uni::Scratch::new("c02c");
+	let scr = &sc;
+	crate::chainx::guarded("long", &mut rep, move |rep| {
+		let tree = crate::c09::universe(scr, "long");
+		let prelude = crate::c09::parse_events(&tree, &["*main"]);
+		let mut inv = Inv02c { inst: "long".into() };
+		let mut ex = Explorer::with_prelude(&tree, scr, Options::NONE, "long", &prelude);
+		ex.shard = (shard, n);
+		let idx = |name: &str| tree.blocks.iter().position(|b| b.name == name).unwrap();
+		let mut evs: Vec<Ev> = vec![Ev::B(idx("x91")), Ev::B(idx("y90")), Ev::B(idx("y91")), Ev::B(idx("y92")), Ev::Compact, Ev::Reopen];
+		if tier == Tier::Thorough {
+			evs.push(Ev::Compact);
+		}
+		ex.explore_snap(&evs, &[], &mut inv, rep);
+		let _ = std::fs::remove_dir_all(&ex.base);
+	});
+	rep
+}
+
+struct Inv02c {
+	inst: String,
+}
+
+impl Invariant for Inv02c {
+	fn check(&mut self, live: &Live<'_>, prefix: &[Ev], before: &Fp, after: &Fp, out: &Outcome, rep: &mut Report) {
+		let t = live.tree;
+		let case = || case_json(&self.inst, t, prefix);
+		if let Some(ok) = out.expect.ok {
+			if ok != out.ok {
+				rep.violation(format!("compaction:verdict:{}", prefix.last().unwrap().show(t)), format!("{} returned {} but the reference ledger says {}", prefix.last().unwrap().show(t), if out.ok { "Ok".into() } else { out.err.clone() }, if ok { "accept" } else { "reject" }), case());
+			}
+		}
+		if matches!(prefix.last(), Some(Ev::Compact)) {
+			if !out.ok {
+				rep.violation("compaction:compact-error", format!("compact failed: {}", out.err), case());
+			}
+			// compaction leaves head, roots and the unspent view untouched
+			let keys = ["head", "roots", "sizes", "utxo.", "outpos"];
+			if before.only(&keys) != after.only(&keys) {
+				rep.violation("compaction:changed-state", format!("compact changed chain state: {:?}", before.only(&keys).diff(&after.only(&keys)).into_iter().take(3).collect::<Vec<_>>()), case());
+			}
+		}
+		let head = live.chain().head().unwrap();
+		let hidx = t.index_of(&head.last_block_h);
+		check_unspent(live, hidx, "compaction:utxo", prefix, &self.inst, rep);
+		match live.chain().validate(false) {
+			Ok(_) => rep.outcome("validate:ok"),
+			Err(e) => rep.violation("compaction:validate", format!("validate(false) = {:?} after {}", e, prefix.last().unwrap().show(t)), case()),
+		}
+	}
+}
+
 impl Engine for C02 {
 	fn id(&self) -> &'static str {
 		"C02"
@@ -242,11 +302,12 @@ impl Engine for C02 {
 		}
 	}
 	fn parts(&self, _tier: Tier) -> Vec<(&'static str, usize)> {
-		vec![("forks", 16)]
+		vec![("forks", 12), ("compaction", 4)]
 	}
 	fn run_part(&self, part: &str, tier: Tier, shard: usize, n: usize) -> Report {
 		match part {
 			"forks" => forks(tier, shard, n),
+			"compaction" => compaction(tier, shard, n),
 			_ => panic!("unknown part"),
 		}
 	}
